@@ -105,6 +105,12 @@ class Rewriter(ast.NodeTransformer):
                 args=[f.value] + node.args, keywords=node.keywords), node)
         return node
 
+    def visit_Dict(self, node):
+        self.generic_visit(node)
+        if not node.keys:
+            return ast.copy_location(ast.Call(func=ast.Name(id="__symx_dict__", ctx=ast.Load()), args=[], keywords=[]), node)
+        return node
+
     def visit_Compare(self, node):
         self.generic_visit(node)
         if len(node.ops) == 1 and isinstance(node.ops[0], (ast.In, ast.NotIn)):
